@@ -595,7 +595,7 @@ func c19Explore(c *core.Ctx, cfg c19Cfg, race bool, only []int, onFail func(cs c
 		}
 	}
 	rep = map[string]any{"config": fmt.Sprintf("%+v", cfg), "race_monitor": race, "executions": e.Executions, "scheduling_choices": e.Transitions,
-		"distinct_states": len(e.States), "pruned_at_visited_state": e.Pruned, "max_points": e.MaxPoints, "outcomes": outcomes, "completed": !e.Capped, "wall_s": time.Since(start).Seconds(), "sample_schedule": sample}
+		"distinct_states": len(e.States), "pruned_at_visited_state": e.Pruned, "max_points": e.MaxPoints, "max_threads_incl_goroutines_started_by_the_library": e.MaxThreads, "outcomes": outcomes, "completed": !e.Capped, "wall_s": time.Since(start).Seconds(), "sample_schedule": sample}
 	return e, rep
 }
 
@@ -627,6 +627,10 @@ func init() {
 				}
 				res := out.Res
 				stderrAll += out.Stderr
+				for _, fb := range res.Fallbacks {
+					c.Note("worker %s: %s", jobs[i].Arg, fb)
+					c.Set("library_goroutines_outside_the_explorer", true)
+				}
 				if jobs[i].Binary == "mc-race" {
 					if !res.CanaryOK {
 						c.InternalError("race monitor canary failed: %s", res.Error)
@@ -649,6 +653,7 @@ func init() {
 				c.Note("%d race detector report(s) saved to %s", n, filepath.Join(core.Root, "replays", "C19-race-reports.txt"))
 			}
 			c.Set("race_monitor_executions", raceExecs)
+			c.Set("library_go_statements_as_explorer_threads", core.GoMode())
 			c.Set("states", states)
 			c.Set("transitions", trans)
 			c.Set("traces_validated_against_impl", execs)
